@@ -85,6 +85,9 @@ func (m *omap) find(i *interpreter, k value) int {
 }
 
 func (m *omap) lookup(i *interpreter, k value) (value, bool) {
+	if i.sched != nil && m != nil {
+		i.sched.accessCheck(i, m, false, "Go map")
+	}
 	e := m.find(i, k)
 	if e < 0 {
 		return nil, false
@@ -95,6 +98,9 @@ func (m *omap) lookup(i *interpreter, k value) (value, bool) {
 func (m *omap) insert(i *interpreter, k, v value) {
 	if m == nil {
 		panic("assignment to entry in nil map")
+	}
+	if i.sched != nil {
+		i.sched.accessCheck(i, m, true, "Go map")
 	}
 	if e := m.find(i, k); e >= 0 {
 		old := m.ents[e].val
@@ -127,6 +133,9 @@ func (m *omap) insert(i *interpreter, k, v value) {
 func (m *omap) delete(i *interpreter, k value) {
 	if m == nil {
 		return
+	}
+	if i.sched != nil {
+		i.sched.accessCheck(i, m, true, "Go map")
 	}
 	e := m.find(i, k)
 	if e < 0 {
